@@ -270,6 +270,9 @@ long new_engine(const mj::Value &opts) {
     chai->add(chaiscript::var(std::ref(h->sink)), "sink");
     chai->add(chaiscript::fun([h](int v) { h->sink.push_back(v); }), "sink_push");
     chai->add(chaiscript::fun([](const std::string &kind) -> int { throw_kind(kind); return 0; }), "thr");
+    // const containers published by the host (C12: bounds checks on the const overloads)
+    chai->add_global_const(chaiscript::const_var(std::vector<Boxed_Value>{Boxed_Value(10), Boxed_Value(20), Boxed_Value(30)}), "cvec_h");
+    chai->add_global_const(chaiscript::const_var(std::string("hello")), "cstr_h");
     chai->add(chaiscript::fun([h, chai](const std::string &tag) -> int {
                 ++h->cb_total;
                 ++h->cb_calls[tag];
